@@ -198,7 +198,7 @@ prop('C13', 'model_checking',
 prop('C14', 'exploration',
      'Bindings.tla models the wire each binding writes as a token sequence (structural separators distinct from escaped payload '
      'characters, per escaping rule) and an independent reader; TLC checks NoInjection (exactly the expected parameters, each '
-     'once, existing query preserved, quotes only as delimiters) and RoundTrip for every scenario over a 30-class alphabet (separators, escapes, escape look-alikes, look-alikes of the form template\'s placeholders, backslash spellings, a 70 000-character run), and '
+     'once, existing query preserved, quotes only as delimiters) and RoundTrip for every scenario over a 32-class alphabet (separators, escapes, escape look-alikes, look-alikes of the form template\'s placeholders, backslash spellings, a 70 000-character run), and '
      'exhibits the counterexamples of the pinned design (SOAP newline loss, artifact glue); every scenario is executed through '
      'Entity.apply_binding and read back by strict urllib parse_qsl / html.parser / xml.etree and by Entity.unravel and the SOAP '
      'decoders. Bounded-exhaustive over a character-class alphabet: the "for all strings" part is not proved',
